@@ -609,9 +609,10 @@ const C18IsolationVariants = 3
 
 // StatefulIsolation runs two concurrent sessions with colliding ids over ONE middleware value and
 // one shared stub; each session must behave exactly as the model says it behaves alone.
-// params: mw (0 MaxSubscriptions(1), 1 RecvEventUniqueFilter(2), 2 SendEventUniqueFilter(2)), variant.
+// params: mw (0 MaxSubscriptions(1), 1 RecvEventUniqueFilter(2), 2 SendEventUniqueFilter(2)), variant,
+// seq (1: session B starts only after session A has ended - state must not survive a connection either).
 func StatefulIsolation(h *vsched.H) {
-	mw, variant := h.Param("mw", 0), h.Param("variant", 0)
+	mw, variant, seq := h.Param("mw", 0), h.Param("variant", 0), h.Param("seq", 0) == 1
 	logs := []*c18Log{{}, {}}
 	var conns []*Conn
 	var hd mocrelay.Handler
@@ -640,6 +641,15 @@ func StatefulIsolation(h *vsched.H) {
 		conns = append(conns, c)
 		go c18Read(c)
 		go c18Write(c, msgs)
+		if seq && i == 0 {
+			h.WaitQuiescent()
+			c.Cancel()
+			h.WaitQuiescent()
+			if !c.ServeDone {
+				h.Fail("C18/isolation harness: the first session did not end after cancel", name)
+				return
+			}
+		}
 	}
 	h.WaitQuiescent()
 	sig := "C18/isolation: " + C18IsolationNames[mw] + " state leaks between connections"
